@@ -75,6 +75,40 @@ fn connect_phase(rep: &mut Rep) {
             }
         }
     }
+    // a long CONNACK (remaining length needs 2 bytes) arriving in pieces must still give ConnectRsp
+    {
+        let long = "r".repeat(150);
+        let connack = SPacket::Connack { session_present: false, reason: 0, props: vec![Prop::str(31, &long), Prop::u16(33, 7)] }.encode();
+        for cut in 1..connack.len().min(12) {
+            for mode in 0..2u8 {
+                let id = format!("connack-split:{cut}:{mode}");
+                idx += 1;
+                if !rep.take(idx, &id) {
+                    continue;
+                }
+                let mut sim = Sim::new(rep.seed);
+                sim.cmd(Cmd::Connect(ConnSpec::default()));
+                sim.settle();
+                if mode == 0 {
+                    sim.feed(&connack[..cut]);
+                    sim.settle();
+                    sim.feed(&connack[cut..]);
+                } else {
+                    sim.trickle = Some(cut);
+                    sim.feed(&connack);
+                }
+                sim.settle();
+                let got = sim.last_ctx_result("connect");
+                let ok = matches!(&got, Some(CtxOut::Conn(ConnOut::Connack(c))) if c.reason_string.as_deref() == Some(long.as_str()) && c.receive_maximum == 7);
+                if !ok {
+                    viol(rep, format!("C13/connect-wrong-result/long-connack-in-pieces"), &id, format!("CONNACK of {} bytes delivered in pieces (cut {cut}, mode {mode}): connect() returned {:?}", connack.len(), got.map(|g| brief_ctx(&g))), &sim);
+                }
+                rep.add("evaluations", 1);
+                rep.add("connect_outcomes_checked", 1);
+                rep.distinct(&("connack-split", cut, mode));
+            }
+        }
+    }
     // transport ends before / in the middle of the response
     let connack = SPacket::Connack { session_present: false, reason: 0, props: vec![Prop::u16(33, 10), Prop::str(18, "assigned")] }.encode();
     for call_auth in [false, true] {
@@ -190,6 +224,45 @@ pub fn run(rep: &mut Rep) {
                 if harvest(rep, &mut w, &id) == 0 {
                     rep.sample(|| format!("{id} -> run() = {:?}", w.sim.run_result()));
                 }
+                add_counters(rep, &w);
+            }
+        }
+    }
+    // a long server DISCONNECT (150-byte reason string) delivered in pieces: run() must wait for all of it and report it
+    for cut in 1..10usize {
+        for mode in 0..2u8 {
+            for state in [0u8, 2] {
+                let id = format!("sdisc-long:{cut}:{mode}:s{state}");
+                idx += 1;
+                if !rep.take(idx, &id) {
+                    continue;
+                }
+                let mut w = World::boot(WorldCfg { seed: rep.seed, ..Default::default() });
+                prepare(&mut w, state);
+                let long = "x".repeat(150);
+                let pkt = SPacket::Disconnect { reason: 0x8b, props: vec![Prop::str(31, &long)], form: 2 }.encode();
+                w.term = Some(Term::ServerDisconnect(ErrSum::Disconnected { reason: 0x8b, sei: 0, reason_string: Some(long.clone()), server_reference: None, user_props: vec![] }));
+                w.sim.note(|| format!("deliver DISCONNECT(reason=0x8b, 150-byte reason string) in pieces: cut {cut} mode {mode}"));
+                if mode == 0 {
+                    w.sim.feed(&pkt[..cut]);
+                    w.sim.settle();
+                    // not yet complete: run() must still be pending
+                    if w.sim.run_result().is_some() {
+                        let r = w.sim.run_result();
+                        w.viol(&["C13"], "C13/run-returned-on-partial-packet".into(), format!("run() returned {:?} after only {cut} of {} bytes of a server DISCONNECT", r, pkt.len()));
+                    }
+                    w.sim.feed(&pkt[cut..]);
+                } else {
+                    w.sim.trickle = Some(cut);
+                    w.sim.feed(&pkt);
+                    w.sim.trickle = None;
+                }
+                w.settle_check();
+                finish(&mut w);
+                rep.add("evaluations", 1);
+                rep.add("server_disconnects", 1);
+                rep.distinct(&("sdisc-long", cut, mode, state));
+                harvest(rep, &mut w, &id);
                 add_counters(rep, &w);
             }
         }
